@@ -11,7 +11,7 @@ pf=/verif/seeded/$seed/patch.diff
 [ -f /verif/seeded/$seed/patch.current.diff ] && pf=/verif/seeded/$seed/patch.current.diff
 if ! git -C $wt apply $pf; then echo "SEED-APPLY-FAILED $seed"; exit 3; fi
 cd /verif
-out=$(VERIF_REPO=$wt VERIF_DIR_EVIDENCE_SKIP=1 ./check $id $tier 2>&1); rc=$?
+out=$(VERIF_REPO=$wt VERIF_NO_EVIDENCE=1 ./check $id $tier 2>&1); rc=$?
 echo "$out" | grep -E "^(VIOLATION|KNOWN-FINDING|SUMMARY|INCONCLUSIVE|BUILD-FAILED)" | cut -c1-300 | head -12
 echo "$out" | grep -A2 "^VIOLATION" | grep signature | sort | uniq -c | head -5
 echo "SEEDRUN seed=$seed check=$id tier=$tier rc=$rc"
